@@ -500,6 +500,15 @@ def run(ctx) -> None:
                 rng.shuffle(raw)
                 jl.append({"cwd": str(cwd), "raw": raw, "file": "my/checks/new_check.py", "prefix": scen, "stub": "fzf"})
                 ml.append({"sel": s, "raw": raw, "cwd": cwd, "file": "my/checks/new_check.py", "prefix": scen, "scenario": scen, "module": "my.checks.new_check"})
+                if k < 2:
+                    # a NEW prefix that is a proper string-prefix (FUR, EPP -> EP is too short, so EPPX extends instead) of one in use:
+                    # it has no codes of its own and must start at 100
+                    near = "FUR" if scen == "FURB" else "EPPX"
+                    cwd2 = d / f"s{near}{k}"
+                    cwd2.mkdir()
+                    (cwd2 / "corpus.py").write_text(CORPUS)
+                    jl.append({"cwd": str(cwd2), "raw": raw, "file": "my/checks/new_check.py", "prefix": near, "stub": "fzf"})
+                    ml.append({"sel": s, "raw": raw, "cwd": cwd2, "file": "my/checks/new_check.py", "prefix": near, "scenario": near, "module": "my.checks.new_check"})
 
         # -------------------------------------------------------------- target path handling
         outside = d / "outside"
